@@ -9,7 +9,7 @@
    labels Kubernetes reads for the object's kind; [selects s w] = every requirement of s's selector is met
    by w's pod labels; [apply_chain_al] = a resource through the directives of its layer chain with the
    node sharing of the implementation. [nonstr] is the go-yaml resolution oracle (any function). *)
-From KV Require Import Res.Labels Res.LabelsProofs Res.LabelsGen Res.LabelsAlias Res.LabelsTree.
+From KV Require Import Res.Labels Res.LabelsProofs Res.LabelsGen Res.LabelsAlias Res.LabelsTree Res.LabelsChain.
 
 (* ------------------------------------------------------------------------------------------- *)
 (* Obligations on the generated tables (vm_compute on Gen/FieldSpecs.v: editing a row in
@@ -268,3 +268,25 @@ Theorem C08_build_outputs_are_chain_images :
     Forall (fun st' => exists r ch, reaches l r ch /\ apply_chain_al nonstr tc ch (r, []) = Ok st') out.
 Proof. exact build_outputs_are_chain_images. Qed.
 Print Assumptions C08_build_outputs_are_chain_images.
+
+(* Whole chains with the implementation's node sharing (default tables): if no labels entry carries custom
+   fields, no label / annotation key is set twice along the chain, and the keys of the entries without
+   includeSelectors do not override a requirement of the selector, then a workload whose selector matched its
+   pod template still does after the whole chain - any number of layers, commonLabels, labels entries with
+   or without includeSelectors / includeTemplates, commonAnnotations. The two refuted chain theorems above show
+   that the "set twice" hypothesis cannot be dropped on the current code. *)
+Theorem C08_own_selector_chain_partial :
+  forall (nonstr : string -> bool) (ds : list dirs) (w : node) (st' : rstate) (sp tp : string),
+    (forall d, In d ds -> dir_ok d) -> NoDup (chain_keys ds) ->
+    (forall d, In d ds -> nonsel_compat d w) ->
+    assoc3 (obj_kind w) k8s_workloads = Some (Some sp, tp) ->
+    is_map w = true -> no_seq_along (path_splitter tp) w = true -> selects w w ->
+    apply_chain_al nonstr default_tc ds (w, []) = Ok st' ->
+    selects (fst st') (fst st').
+Proof. exact own_selector_chain. Qed.
+Print Assumptions C08_own_selector_chain_partial.
+
+(* the annotation rows end neither at a selector nor at the pod labels of any of the 11 kinds *)
+Theorem Gen_annotations_clear : chk_annotations_clear = true.
+Proof. exact gen_annotations_clear. Qed.
+Print Assumptions Gen_annotations_clear.
